@@ -339,12 +339,18 @@ def raw_svg(g, w_attr=64):
                 defs.append(d)
     solid_idx = [i for i, n in enumerate(g.nodes) if isinstance(n, Shape) and n.paint.kind == "solid"]
     body = []
+    root_fill = ""
     for i, n in enumerate(g.nodes):
         if solid_idx and i == solid_idx[0]:
             dx, dy = 3.0, -2.0
             d = place(n.d, aff.tr(-dx, -dy), nd=4)
             s = Shape(d, n.paint, n.opacity)
-            body.append(f'<g transform="translate({_g(dx)} {_g(dy)})">{s.svg()}</g>')
+            inner = s.svg()
+            if n.paint.attr() != "black" and ' fill="' in inner and not any(l.paint.attr() == "black" for l in g.leaves()):
+                # the shape's fill is declared on the root <svg> and inherited (as exporters often do)
+                root_fill = f' fill="{n.paint.attr()}"'
+                inner = inner.replace(f' fill="{n.paint.attr()}"', "", 1)
+            body.append(f'<g transform="translate({_g(dx)} {_g(dy)})">{inner}</g>')
         elif len(solid_idx) > 1 and i == solid_idx[-1]:
             dx, dy = -4.0, 5.0
             d = place(n.d, aff.tr(-dx, -dy), nd=4)
@@ -361,6 +367,6 @@ def raw_svg(g, w_attr=64):
     return (
         '<svg xmlns="http://www.w3.org/2000/svg" xmlns:xlink="http://www.w3.org/1999/xlink" '
         f'viewBox="{_g(x)} {_g(y)} {_g(w)} {_g(h)}" width="{w_attr}" height="{w_attr}" '
-        f'enable-background="new 0 0 {_g(w)} {_g(h)}">'
+        f'enable-background="new 0 0 {_g(w)} {_g(h)}"{root_fill}>'
         f'<defs>{"".join(defs)}</defs>' + "".join(body) + "</svg>"
     )
